@@ -251,7 +251,7 @@ class Application(IOSoftware, ABC):
         :return: True if outbound network actions can be performed, otherwise False.
         :rtype bool:
         """
-        if not super()._can_perform_action():
+        if not self._can_perform_action():
             return False
 
         for nic in self.software_manager.node.network_interface.values():
